@@ -133,10 +133,10 @@ theorem agg_final_table_take (O : Oracles) (q : AggStmt) (n : Nat) (es : EngineS
 read when the limit is 0, else every line fed to the engine with update + result, every result table printed, the
 loop left after a table that came with `reached_limit` — prints exactly the records of the batch run over the
 same lines. So `limit_is_take` (and C08's `distinct_is_first_occurrences`) hold verbatim for what follow mode
-prints. (`followRun` models that loop by reading; the engine answers it consumes are the `incr` cases.) -/
+prints. (`selectFollowRun` models that loop by reading; the engine answers it consumes are the `incr` cases.) -/
 theorem follow_prints_batch_output (O : Oracles) (qy : Query) (q : SelectStmt) (hq : qy.stmt = .select q)
     (hj : qy.join = none) (lines : List Line) :
-    followRun O qy false lines = (runBatch O qy [] [readableFile lines] none).printed :=
+    selectFollowRun O qy false lines = (runBatch O qy [] [readableFile lines] none).printed :=
   followRun_eq_batch O qy q hq hj lines
 
 /-! ### non-vacuity and concrete behaviour -/
